@@ -129,15 +129,26 @@ where
                 Some(p) => ev.p(&p),
             }
         }
-        "mul_int_r" | "div_int_r" => {
-            let mut r = [0u128; 3];
+        "mul_int_r" => {
+            // a * i by reference (3), integer on the left by reference (3), a *= &i
+            let mut r = [0u128; 7];
             let p = guard(&mut || {
-                let q = if op == "mul_int_r" {
-                    F::x_mul_int_refs(&x, &i)
-                } else {
-                    F::x_div_int_refs(&x, &i)
-                };
-                r = [tb(q[0]), tb(q[1]), tb(q[2])];
+                let q = F::x_mul_int_refs(&x, &i);
+                let l = F::x_int_mul_refs(&i, &x);
+                let s = F::x_int_assign_refs(x, &i, 0);
+                r = [tb(q[0]), tb(q[1]), tb(q[2]), tb(l[0]), tb(l[1]), tb(l[2]), tb(s)];
+            });
+            match p {
+                None => r.iter().for_each(|v| ev.v(*v)),
+                Some(p) => ev.p(&p),
+            }
+        }
+        "div_int_r" => {
+            let mut r = [0u128; 4];
+            let p = guard(&mut || {
+                let q = F::x_div_int_refs(&x, &i);
+                let s = F::x_int_assign_refs(x, &i, 1);
+                r = [tb(q[0]), tb(q[1]), tb(q[2]), tb(s)];
             });
             match p {
                 None => r.iter().for_each(|v| ev.v(*v)),
@@ -153,6 +164,25 @@ fn drive<F: Ext>(ev: &mut Ev, args: &Args, lay: Lay)
 where
     F::Bits: BitsIo,
 {
+    if args.get_u64("exhaustive", 0) == 1 && lay.n == 8 {
+        // every operand pair of an 8-bit layout, every op
+        for a in 0..256u128 {
+            do_op::<F>(ev, lay, "neg", a, 0);
+            if F::IS_SIGNED {
+                do_op::<F>(ev, lay, "abs", a, 0);
+            }
+            for b in 0..256u128 {
+                for op in ["add", "sub", "mul", "div", "mul_int", "div_int"].iter() {
+                    do_op::<F>(ev, lay, op, a, b);
+                }
+                if (a ^ b) & 7 == 0 {
+                    for op in ["add_r", "sub_r", "mul_r", "div_r", "mul_int_r", "div_int_r"].iter() {
+                        do_op::<F>(ev, lay, op, a, b);
+                    }
+                }
+            }
+        }
+    }
     let mut rng = args.rng_for(lay, 1);
     for it in 0..args.n {
         let a = gen_bits(&mut rng, lay);
